@@ -2,4 +2,9 @@
 
 package lint
 
+import "github.com/zmap/zcrypto/x509"
+
 func verifGate(point string, name string) {}
+
+func verifObserve(meta *LintMetadata, cert *x509.Certificate, config Configuration, result **LintResult) {
+}
